@@ -806,7 +806,7 @@ def _pipe_rows2(ctx):
                 continue
             cuts = _option_none_edges(c, 'PollFn') | _option_none_edges(c, 'BoxFuture') | _option_none_edges(c, 'Pin<')
             awb = set(a['poll_bb'] for a in aw)
-            if not _always(c, sites):
+            if not _always(c, sites) and _reach_exit_avoiding(c, sites, _option_none_edges(c, 'PollFn') | _option_none_edges(c, 'FnMut')):
                 out.append(bad(R, key2, 'the poll job can finish without calling the poll function: the wake-up it was queued for is lost', fn=c.name))
             elif _reach_exit_avoiding(c, awb, cuts):
                 out.append(bad(R, key2, 'the poll job can finish without awaiting the future the poll function returned: the items it would have read stay unread', fn=c.name))
